@@ -91,6 +91,19 @@ def kani_version():
         return 'unknown'
 
 
+RUNNER_REV = '2'   # part of the cache key: bump when the way a harness is run or its output is read changes
+
+
+def fq_name(h):
+    """fully qualified harness name (cargo kani --harness <fq> --exact): a bare name is a SUBSTRING filter, so `k_lang` would also run
+    `k_lang_und` and `k_lang_frag`, and several verdicts would be read as one"""
+    for src, hf in ATTACH:
+        if re.search(r'\bfn %s\b' % re.escape(h), open(os.path.join(KANI_DIR, hf)).read()):
+            mod = src[len('src/'):-len('.rs')].replace('/', '::')
+            return '%s::verif_kani::%s' % (mod, h)
+    raise KeyError('harness %s not found in %s' % (h, KANI_DIR))
+
+
 def make_scratch():
     d = '/tmp/muxide-kani-%d' % os.getpid()
     if os.path.exists(d):
@@ -111,7 +124,12 @@ def parse(out):
     m = re.search(r'Verification Time: ([0-9.]+)s', out)
     if m:
         res['time_s'] = float(m.group(1))
-    if 'VERIFICATION:- SUCCESSFUL' in out:
+    n_verdicts = len(re.findall(r'VERIFICATION:- (?:SUCCESSFUL|FAILED)', out))
+    if n_verdicts > 1:
+        # more than one harness ran (a name that is a substring of another without --exact): never summarise that as one verdict
+        res['status'] = 'tool'
+        res['tail'] = 'more than one harness verdict in one run (%d)' % n_verdicts
+    elif 'VERIFICATION:- SUCCESSFUL' in out and 'VERIFICATION:- FAILED' not in out:
         res['status'] = 'ok'
     elif 'VERIFICATION:- FAILED' in out:
         fc = []
@@ -155,7 +173,7 @@ def run_one(scratch, h, timeout):
     env = dict(os.environ, CARGO_NET_OFFLINE='true')
     logp = os.path.join(scratch, 'verif-kani-%s.log' % h)
     with open(logp, 'w') as lf:
-        p = subprocess.Popen(['cargo', 'kani', '-Z', 'stubbing', '--harness', h], cwd=scratch, stdout=lf, stderr=subprocess.STDOUT,
+        p = subprocess.Popen(['cargo', 'kani', '-Z', 'stubbing', '--harness', fq_name(h), '--exact'], cwd=scratch, stdout=lf, stderr=subprocess.STDOUT,
                              env=env, start_new_session=True)
         why = None
         while p.poll() is None:
@@ -195,7 +213,7 @@ def playback(scratch, h, failed_checks=()):
     env = dict(os.environ, CARGO_NET_OFFLINE='true')
     res = {'outcome': 'none'}
     try:
-        p = subprocess.run(['cargo', 'kani', '-Z', 'stubbing', '-Z', 'concrete-playback', '--concrete-playback=print', '--harness', h],
+        p = subprocess.run(['cargo', 'kani', '-Z', 'stubbing', '-Z', 'concrete-playback', '--concrete-playback=print', '--harness', fq_name(h), '--exact'],
                            cwd=scratch, capture_output=True, text=True, env=env, timeout=HARNESSES[h]['timeout'] + 300)
         out = p.stdout + p.stderr
         m = re.search(r'#\[test\]\s*\nfn (kani_concrete_playback_\w+)\(\) \{.*?\n\}', out, re.S)
@@ -255,7 +273,7 @@ def playback(scratch, h, failed_checks=()):
 def run(harnesses, jobs=6):
     """Returns {harness: result}. Cached per harness on the tree hash."""
     os.makedirs(CACHE, exist_ok=True)
-    key = hashlib.sha256((tree_hash() + kani_version()).encode()).hexdigest()[:32]
+    key = hashlib.sha256((tree_hash() + kani_version() + RUNNER_REV).encode()).hexdigest()[:32]
     results = {}
     todo = []
     for h in harnesses:
